@@ -58,6 +58,10 @@ def cells(tier, seed):
             out.append(c)
     for call_noise in ("absent", "given"):
         out.append({"kind": "list", "n": 3, "lb": [], "db": [], "call_noise": call_noise})
+    # the Dirichlet classification likelihood is a fixed-noise Gaussian likelihood whose per-class noise comes from labels: stored (training
+    # labels) or given at call time (targets=...), in both cases log(1 / alpha + 1) with alpha = alpha_epsilon (+ 1 for the label's class)
+    for eps, call_noise in itertools.product([0.01, 0.1], ["absent", "given"]):
+        out.append({"kind": "dirichlet", "n": 4, "lb": [], "db": [], "call_noise": call_noise, "eps": eps})
     for k in ("gaussian", "fixed", "fixed_learn", "multitask"):
         out.append({"kind": "sequence", "of": k, "n": 3, "lb": [], "db": [], "call_noise": "mixed"})
     return out
@@ -74,6 +78,8 @@ def run_cell(cell, seed):
         res = run_multitask(cell, g, fails, feats)
     elif kind == "list":
         res = run_list(cell, g, fails, feats)
+    elif kind == "dirichlet":
+        res = run_dirichlet(cell, g, fails, feats)
     elif kind == "sequence":
         feats["of"] = cell["of"]
         res = run_sequence(cell, g, fails, feats)
@@ -292,6 +298,31 @@ def run_multitask(cell, g, fails, feats):
                 fails.check_close("positional-inputs", lik.expected_log_prob(y, d, x), lik.expected_log_prob(y, d), 0, 0, "expected_log_prob(y, dist, x)")
                 fails.check_close("positional-inputs", lik.log_marginal(y, d, x), lik.log_marginal(y, d), 0, 0, "log_marginal(y, dist, x)")
     return "multitask"
+
+
+def run_dirichlet(cell, g, fails, feats):
+    from gpytorch.likelihoods import DirichletClassificationLikelihood
+    n, eps, k = cell["n"], cell["eps"], 3
+    feats["eps"] = eps
+    train_y = torch.tensor([0, 2, 1, 2])
+    test_y = torch.tensor([2, 0, 0, 1])
+
+    def sigma2(labels):
+        alpha = eps * torch.ones(k, n, dtype=F64)
+        alpha[labels, torch.arange(n)] += 1.0
+        return torch.log(1.0 / alpha + 1.0)     # k x n: one fixed-noise vector per class
+
+    lik = DirichletClassificationLikelihood(train_y, alpha_epsilon=eps, learn_additional_noise=False, dtype=F64)
+    d = MVN(util.randn(g, k, n), torch.stack([util.spd(g, n) for _ in range(k)]))
+    with torch.no_grad():
+        with fails.guard("dirichlet-noise"):
+            if cell["call_noise"] == "given":
+                out, want = lik(d, targets=test_y), sigma2(test_y)
+            else:
+                out, want = lik(d), sigma2(train_y)
+            fails.check_close("dirichlet-noise", out.covariance_matrix - d.covariance_matrix, torch.diag_embed(want), 1e-12, 1e-12,
+                              "added noise != diag(log(1 / alpha + 1)) with alpha = alpha_epsilon (+ 1 for the label's class)")
+    return "dirichlet"
 
 
 def run_list(cell, g, fails, feats):
